@@ -8,7 +8,12 @@ def run(res, a):
     envs = [None, {"VERIF_RECLAIM_ON_FREE": "1"}, {"VERIF_NO_ARENA": "1", "VERIF_RECLAIM_ON_FREE": "1"}, {"VERIF_TARGET_SEGMENTS": "2"},
             {"VERIF_BIG_ARENA": "1"}, {"VERIF_NO_ARENA": "1"}, {"VERIF_BIG_ARENA": "1", "VERIF_RECLAIM_ON_FREE": "1"}]
     conc.run_conc(res, "C09", a.seed, a.tier, envs=envs if a.tier == "thorough" else envs[:5], nseeds_quick=24)
+    # schedule-lockstep tie of coq/Model/Abandon.v (theorems: Properties/C09abandon.v) with the real allocator, same env variants
+    conc.run_abandon_lockstep(res, "C09", a.seed, a.tier, envs=envs if a.tier == "thorough" else envs[:5])
     res.cov["rule"] = ("scheduler harness, mode exit: virtual threads terminate through mi_thread_done at random points while blocks they allocated are "
                        "still held by other threads, which later verify the byte pattern and free them (with reclaim-on-free on and off, arena and "
-                       "OS-allocated segments); at quiescence a forced collect must leave no abandoned segment and no block. distinct = distinct schedules")
+                       "OS-allocated segments); at quiescence a forced collect must leave no abandoned segment and no block. distinct = distinct schedules. "
+                       "Lockstep: for further schedules of the same program the harness logs every access to segment->thread_id, the abandoned bit / "
+                       "OS list, abandoned_count and the two abandoned-list locks, and the extracted model Model/Abandon.v must take the same transition "
+                       "of the same thread with the same values, inv_b evaluated after every step (evaluations also counts these steps)")
     res.assumptions += ["thread exit through the pthread key destructor is not exercised here (virtual threads call mi_thread_done); the pinned suite covers it"]
